@@ -123,6 +123,54 @@ def run_node(c):
     return res
 
 
+def run_reserve_case(c):
+    """ops: ['a', n, r] | ['f', addr] | ['r', addr, n].  A raise ends the history; the observation is taken anyway."""
+    out, ops = [], []
+    a = eng.ContiguousBlockAllocator(c['size'], c['pos'], c['off'])
+    for op in c['ops']:
+        CH.last = None
+        code, val, name = 0, 0, None
+        try:
+            if op[0] == 'a':
+                CH.r = op[2]
+                r = a.alloc(op[1])
+                code, val = (0, 0) if r is None else (1, r)
+            elif op[0] == 'f':
+                a.free(op[1])
+            else:
+                r = a.reserve(op[1], op[2], False)
+                code, val = (0, 0) if r is None else (1, r.start)
+        except Exception as e:
+            code, name = code_of(e), type(e).__name__
+        try:
+            top, cells, freed, alias = observe(a)
+        except Exception:
+            top, cells, freed, alias = 0, [], [], False
+        ops.append(op)
+        out.append([code, val, top, cells, freed, CH.last, alias, name])
+        if code >= 2:
+            break
+    return ops, out
+
+
+def probe_reserve_corruption():
+    """Public reserve() on the start of a live block whose predecessor is live (D4)."""
+    a = eng.ContiguousBlockAllocator(8)
+    CH.r = 0
+    x, y = a.alloc(2), a.alloc(2)
+    try:
+        r = a.reserve(2, 1, False)
+        exc = None
+    except Exception as e:
+        r, exc = None, type(e).__name__
+    pred = a._array[0]
+    pred_used = bool(pred is not None and pred.used)
+    again = a.alloc(2)
+    return {'allocs': [x, y], 'reserve_result': None if r is None else [r.start, r.size], 'exception': exc,
+            'predecessor_still_used': pred_used, 'next_alloc': again,
+            'corrupts': again == 0}
+
+
 def probe_foreign_free():
     """free(addr) of an address that does NOT belong to this allocator's partition (e.g. a hardware bus, another
     client's bus) must not free one of its live blocks.  Returns the scenarios in which it does."""
@@ -155,6 +203,11 @@ def main():
     out = {'cases': [x[1] for x in rc], 'ops': [x[0] for x in rc],
            'node': [run_node(c) for c in p.get('node', [])],
            'foreign': probe_foreign_free() if p.get('probe_foreign') else []}
+    rr = [run_reserve_case(c) for c in p.get('reserve_cases', [])]
+    out['reserve_ops'] = [x[0] for x in rr]
+    out['reserve_cases'] = [x[1] for x in rr]
+    if p.get('probe_reserve'):
+        out['reserve_probe'] = probe_reserve_corruption()
     json.dump(out, open(sys.argv[2], 'w'))
 
 
